@@ -170,7 +170,15 @@ func CosineSimilarity(a, b []float32) float64 {
 		return 0
 	}
 
-	return dot / (math.Sqrt(normA) * math.Sqrt(normB))
+	// Rounding can push the quotient an ulp or two outside [-1, 1] (e.g. 1.0000000000000002 for a vector with itself).
+	sim := dot / (math.Sqrt(normA) * math.Sqrt(normB))
+	if sim > 1 {
+		return 1
+	}
+	if sim < -1 {
+		return -1
+	}
+	return sim
 }
 
 // SemanticScores computes cosine similarity between query and all commands.
